@@ -15,6 +15,8 @@ changes variable *types*).
 import Rooc.Proofs.WFFinal
 import Rooc.Proofs.WFBounds
 import Rooc.Proofs.WFExamples
+import Rooc.Proofs.WFCompile
+import Rooc.Proofs.WFCompileExamples
 namespace Rooc.Props.C08
 open Rooc Rooc.Lin Rooc.WFDedup Rooc.Lin.Examples
 
@@ -315,5 +317,109 @@ theorem missing_bounds_error_blames_unbounded {m : Model α} {b : BoundsMap α} 
 
 example : ¬ (Arith.isFinite (varBounds exCb "x").lower = true ∧ Arith.isFinite (varBounds exCb "x").upper = true) :=
   missing_bounds_error_blames_unbounded missing_bounds_example "x" (by simp) (by decide)
+
+/-! ### 8. the WHOLE compiler `Compile.linearize`
+
+`Compile.linearize m tol maxSteps` = normalise for bounds → `BoundsAnalyzer::analyze` → `enforceable` →
+`apply_to_domain` → `Lin.linearizeWith`.  `apply_to_domain` rewrites variable TYPES only, so the hypotheses
+`DomainNodup / UsedKept / DeclaredIn` of the theorems above are discharged: ONE hypothesis on the source is left,
+`SourceNodup m` (the declared names are pairwise distinct — `Model.domain` is an `IndexMap` in rooc), and
+`FiniteLits m` for the finiteness clause.  Tolerance and step limit of the analyzer are arbitrary. -/
+
+/-- every clause of `WF.report` but finiteness, for the whole compiler and an arbitrary number type:
+strictly sorted duplicate-free variables = domain keys (so every variable has a domain entry and vice versa),
+one coefficient per variable in every row and in the objective, every used source variable present, pairwise
+distinct row names derived from user names only, auxiliaries `$`-prefixed or declared. -/
+theorem compile_report_ok_structural {m : Model α} {tol : α} {maxSteps : Nat} {lm : LinModel α}
+    (hd : SourceNodup m = true) (h : Compile.linearize m tol maxSteps = .ok lm) :
+    (WF.report m lm).ok false = true := by
+  obtain ⟨an, hlin⟩ := compile_ok_linearizeWith h
+  exact report_ok_structural (domainNodup_apply an hd) (usedKept_apply an m) (declaredIn_apply an m) hlin
+
+/-- the clauses that need NO hypothesis at all on the source, for the whole compiler. -/
+theorem compile_lengths_and_names {m : Model α} {tol : α} {maxSteps : Nat} {lm : LinModel α}
+    (h : Compile.linearize m tol maxSteps = .ok lm) :
+    (WF.report m lm).rowLengths = true ∧ (WF.report m lm).objectiveLength = true ∧
+    (WF.report m lm).namesUnique = true ∧ (WF.report m lm).userNamesKept = true ∧
+    (WF.report m lm).sourceVarsPresent = true ∧ (WF.report m lm).auxDisjoint = true := by
+  obtain ⟨an, hlin⟩ := compile_ok_linearizeWith h
+  exact ⟨row_lengths hlin, objective_length hlin, names_unique hlin, user_names_kept hlin,
+    source_vars_present (usedKept_apply an m) hlin, aux_disjoint (declaredIn_apply an m) hlin⟩
+
+/-- the compiled domain is the TIGHTENED source domain (same names, same usage marks, in the same order)
+followed by fresh `$`-auxiliaries, filtered to the used variables: a user variable is never renamed, merged
+with an auxiliary or dropped while used, whatever it is called (hostile names such as `$abs_0`, `$max_1_select_0`
+or `a__2` included — then compilation either does not need that auxiliary or fails, `aux_name_taken_fails`). -/
+theorem compile_domain_is_source_plus_fresh_aux {m : Model α} {tol : α} {maxSteps : Nat} {lm : LinModel α}
+    (hd : SourceNodup m = true) (h : Compile.linearize m tol maxSteps = .ok lm) :
+    ∃ (tight added : List (DomVar α)),
+      tight.map (fun v => (v.name, v.usage)) = m.domain.map (fun v => (v.name, v.usage)) ∧
+      lm.domain = (tight ++ added).filter (fun v => lm.vars.contains v.name) ∧
+      (∀ v ∈ added, v.usage = 1 ∧ WF.isAuxName v.name = true ∧ v.name ∉ m.domain.map (·.name)) ∧
+      (added.map (·.name)).Nodup := by
+  obtain ⟨an, hlin⟩ := compile_ok_linearizeWith h
+  obtain ⟨added, h1, h2, h3⟩ := domain_is_input_plus_fresh_aux (domainNodup_apply an hd) hlin
+  refine ⟨an.applyToDomain m.domain, added, ?_, h1, ?_, h3⟩
+  · simp only [Analyzer.applyToDomain, List.map_map]
+    exact List.map_congr_left (fun d _ => by simp [applyToVar_name', applyToVar_usage'])
+  · intro v hv
+    have := h2 v hv
+    rw [applyToDomain_names] at this
+    exact this
+
+/-- the decidable EXCLUDED REGION of the finiteness clause: the source contains a non-finite literal
+(`Infinity`, `-Infinity`, `NaN` as a constant of the objective or of a constraint).  This is the recorded known
+finding `C08-infinity-literal` and it is the ONLY exclusion: outside it (`compile_finite_out`) every emitted
+constant is finite with no further hypothesis, inside it `compile_nonfinite_region_is_needed` exhibits a model
+whose compiled row is `[+inf] >= NaN`. -/
+def NonFiniteLiteralRegion (m : Model α) : Bool := !FiniteLits m
+
+/-- outside the excluded region every coefficient, right-hand side and the offset of the compiled model are
+finite — for every tolerance, step limit and bounds analysis result (no hypothesis on declared ranges: a
+declaration `Real(-Infinity, Infinity)` or a derived infinite bound never reaches a row, the exact lowerings
+fail with `MissingFiniteBounds` instead). -/
+theorem compile_finite_out {K : Type} [ExactField K] {m : Model (Ext K)} {tol : Ext K} {maxSteps : Nat}
+    {lm : LinModel (Ext K)} (hfin : NonFiniteLiteralRegion m = false)
+    (h : Compile.linearize m tol maxSteps = .ok lm) : (WF.report m lm).finite = true := by
+  obtain ⟨an, hlin⟩ := compile_ok_linearizeWith h
+  exact finite_out_partial (by simpa [NonFiniteLiteralRegion] using hfin) hlin
+
+/-- the full report for the whole compiler. -/
+theorem compile_report_ok {K : Type} [ExactField K] {m : Model (Ext K)} {tol : Ext K} {maxSteps : Nat}
+    {lm : LinModel (Ext K)} (hd : SourceNodup m = true) (hfin : NonFiniteLiteralRegion m = false)
+    (h : Compile.linearize m tol maxSteps = .ok lm) : (WF.report m lm).ok true = true := by
+  obtain ⟨an, hlin⟩ := compile_ok_linearizeWith h
+  exact report_ok_partial (domainNodup_apply an hd) (usedKept_apply an m) (declaredIn_apply an m)
+    (by simpa [NonFiniteLiteralRegion] using hfin) hlin
+
+/-- a `MissingFiniteBounds` error of the whole compiler names, among the source variables, only variables whose
+range AFTER bound inference (`apply_to_domain`'s input, `an.variableBounds`) is not finite. -/
+theorem compile_missing_bounds_blames_unbounded {m : Model α} {tol : α} {maxSteps : Nat} {vs : List String}
+    (h : Compile.linearize m tol maxSteps = .error (.missingFiniteBounds vs)) :
+    WF.sortedStrict vs = true ∧ ∃ an : Analyzer α, ∀ x ∈ vs, x ∈ m.domain.map (·.name) →
+      ¬ (Arith.isFinite (varBounds (Compile.toLinBounds an.variableBounds) x).lower = true ∧
+         Arith.isFinite (varBounds (Compile.toLinBounds an.variableBounds) x).upper = true) := by
+  rcases compile_error_linearizeWith h with h | ⟨an, hlin⟩
+  · cases h
+  · refine ⟨(missing_bounds_error_global hlin).1, an, ?_⟩
+    intro x hx hd
+    exact missing_bounds_error_blames_unbounded hlin x hx (by rw [applyToDomain_names]; exact hd)
+
+/-- non-vacuity for the whole compiler: `min x s.t. c1: x >= 1`, `x : NonNegativeReal`, compiles (any tolerance,
+step limit 0) and satisfies `SourceNodup` and lies outside the excluded region. -/
+example (tol : Ext Rat) : ∃ lm, Compile.linearize exA tol 0 = .ok lm ∧ SourceNodup exA = true ∧
+    NonFiniteLiteralRegion exA = false ∧ (WF.report exA lm).ok true = true :=
+  ⟨_, exA_compile tol, exA_hyps.1, by simp [NonFiniteLiteralRegion, exA_hyps.2.2.2],
+    compile_report_ok exA_hyps.1 (by simp [NonFiniteLiteralRegion, exA_hyps.2.2.2]) (exA_compile tol)⟩
+
+/-- the excluded region is needed for the whole compiler too: `min x s.t. Infinity * x >= 1` is inside it,
+satisfies `SourceNodup`, compiles, and the compiled row is `[+inf] >= NaN`. -/
+theorem compile_nonfinite_region_is_needed (tol : Ext Rat) :
+    ∃ (m : Model (Ext Rat)) (lm : LinModel (Ext Rat)), SourceNodup m = true ∧ NonFiniteLiteralRegion m = true ∧
+      Compile.linearize m tol 0 = .ok lm ∧ (WF.report m lm).finite = false ∧
+      (WF.report m lm).ok false = true := by
+  refine ⟨exB, _, by decide, ?_, exB_compile tol, exB_not_finite, ?_⟩
+  · simp [NonFiniteLiteralRegion, FiniteLits, exB, infx, allLits, Arith.isFinite, Ext.isFinite]
+  · exact compile_report_ok_structural (by decide) (exB_compile tol)
 
 end Rooc.Props.C08
